@@ -1684,6 +1684,10 @@ func (rc *RegClient) imageImportOCIHandleManifest(ctx context.Context, r ref.Ref
 	// add a finish func to push the manifest, this gets skipped for the index.json
 	if push {
 		trd.finish = append(trd.finish, func() error {
+			// a child shared with an index that was registered later has not been pushed yet
+			if err := rc.imageImportOCIPushChildren(ctx, r, m, trd); err != nil {
+				return err
+			}
 			mRef := r.SetDigest(m.GetDescriptor().Digest.String())
 			_, err := rc.ManifestHead(ctx, mRef)
 			if err == nil {
@@ -1697,6 +1701,35 @@ func (rc *RegClient) imageImportOCIHandleManifest(ctx context.Context, r ref.Ref
 		})
 	}
 	trd.handleAdded = true
+	return nil
+}
+
+// imageImportOCIPushChildren pushes the loaded child manifests of an index that are missing on the target, nested children first.
+func (rc *RegClient) imageImportOCIPushChildren(ctx context.Context, r ref.Ref, m manifest.Manifest, trd *tarReadData) error {
+	mi, ok := m.(manifest.Indexer)
+	if !ok || !m.IsList() {
+		return nil
+	}
+	dl, err := mi.GetManifestList()
+	if err != nil {
+		return err
+	}
+	for _, d := range dl {
+		cm, ok := trd.manifests[d.Digest]
+		if !ok {
+			continue
+		}
+		cRef := r.SetDigest(d.Digest.String())
+		if _, err := rc.ManifestHead(ctx, cRef); err == nil {
+			continue
+		}
+		if err := rc.imageImportOCIPushChildren(ctx, r, cm, trd); err != nil {
+			return err
+		}
+		if err := rc.ManifestPut(ctx, cRef, cm, WithManifestChild()); err != nil {
+			return err
+		}
+	}
 	return nil
 }
 
